@@ -27,20 +27,7 @@ Section Sem.
       | XN n =>
         if match classes with None => true | Some l => existsb (subclass ct (cls n)) l end
         then
-          (fix fields (fs : list (pystr * fspec)) (ctx caps : dict) {struct fs} : res :=
-             match fs with
-             | [] => ROk caps
-             | (f, s) :: r =>
-               match attr H ct n f with
-               | None => RFail                                    (* the field does not exist *)
-               | Some fv =>
-                 match pm_fspec s fv ctx with
-                 | ROk new => fields r (dupdate ctx new) (dupdate caps new)
-                 | RFail => RFail
-                 | RRaise => RRaise
-                 end
-               end
-             end) fs ctx []
+          field_loop pm_fspec (attr H ct n) fs ctx []          (* every listed field exists and satisfies its spec *)
         else RFail
       | _ => RFail
       end
@@ -60,21 +47,12 @@ Section Sem.
              | Some _ => Nat.leb (length items) (length elems)
              end
           then
-            (fix elementwise (items0 : list (vpat * option pystr)) (elems : list mval) (ctx caps : dict)
-                 {struct items0} : res :=
-               match items0, elems with
-               | (vp, c) :: items', e :: elems' =>
-                 match named c e (pm_vpat vp e ctx) with
-                 | ROk new => elementwise items' elems' (dupdate ctx new) (dupdate caps new)
-                 | RFail => RFail
-                 | RRaise => RRaise
-                 end
-               | _, _ =>
+            zip_loop (fun (it : vpat * option pystr) e ctx => named (snd it) e (pm_vpat (fst it) e ctx))
+              (fun _ caps =>
                  match tail with
                  | Some (Some t) => ROk (dupdate caps [(t, seq_drop (length items) v)])  (* the remaining elements *)
                  | _ => ROk caps
-                 end
-               end) items elems ctx []
+                 end) items elems ctx []
           else RFail
         end
     end
